@@ -378,7 +378,7 @@ def path(ctx, arg):
         return
     ctx.tag('rendered')
     m0 = w.get_model()
-    ctx.res.witness = dict(schema=schema_repr(schema), fmt=fmt, vars=sv.concrete(m0), out=mstr(m0, printed))
+    ctx.res.witness = dict(schema=schema_repr(schema), schema_json=schema_json(schema), fmt=fmt, vars=sv.concrete(m0), out=mstr(m0, printed))
     # C06: placement per the documented rules
     exp = (ref_semver if fmt == 'semver' else ref_pep440)(I, w, sv, schema)
     m = text_diff(w, printed, exp)
